@@ -91,7 +91,7 @@ def main():
             return
         for p in props:
             t0 = time.time()
-            env = dict(ENV, VERIF_REPO=d)
+            env = dict(ENV, VERIF_REPO=d, VERIF_OUT="/tmp/seed-out")
             r = subprocess.run(f"cd /verif && ./check {p} --tier {tier}", shell=True, capture_output=True, text=True, env=env)
             viol = [l for l in r.stdout.splitlines() if l.startswith("VIOLATION")]
             classes = sorted({l.split("#", 1)[1].strip().split(":")[0] for l in viol if "#" in l})
